@@ -12,6 +12,7 @@ import Scico.Proofs.StepSizeRobust
 import Scico.Proofs.StepSizeHist
 import Scico.Proofs.StepSizeSpace
 import Scico.Proofs.StepSizeNaN
+import Scico.Proofs.StepSizeSource
 import Mathlib.Analysis.InnerProductSpace.Basic
 import Mathlib.Analysis.InnerProductSpace.PiL2
 import Mathlib.Analysis.Complex.Basic
@@ -615,6 +616,30 @@ theorem C16_reattach (env : Env V (XR K)) (pol : Policy (XR K)) (hpol : PolOK po
   | false => exact C16_positive_finite_pgm env pol hpol x0 L0 inf hL0 k s (by simpa using h)
 
 end reattach
+
+/-! ## round 4: the data the model copies from the source (kept equal to it by `Generated/StepSizeTables.lean`) -/
+
+section source
+
+/-- **Dispatch of `AcceleratedPGM.step`.**  The model's tests (`Policy.isBB` in `apgmPoint`, the `.rls` branch of `apgmStep`)
+    are the `isinstance` tests of the source — for the class hierarchy and the class tuples that the translator reads from
+    `_pgmaux.py` / `_pgm.py` (subclasses included: `RobustLineSearchStepSize` derives from `LineSearchStepSize`), and the
+    arguments are `self.x` (BB classes, and always in `PGM.step`), `self.v` (otherwise), `self.step_size.Z` (robust branch). -/
+theorem C16_dispatch_isinstance {S : Type} (pol : Policy S) :
+    pol.isBB = isInstanceOf policyClasses pol.className dispatch.apgmArgClasses ∧
+    (match pol with | .rls _ _ _ => true | _ => false) = isInstanceOf policyClasses pol.className dispatch.apgmZClasses ∧
+    dispatch.pgmArg = "self.x" ∧ dispatch.apgmArgThen = "self.x" ∧ dispatch.apgmArgElse = "self.v" ∧
+      dispatch.apgmZThen = "self.step_size.Z" :=
+  ⟨isBB_eq_dispatch pol, isRls_eq_dispatch pol, dispatch_args⟩
+
+/-- **The constructor defaults are admissible**: every step-size class constructed with its default arguments (read from the
+    source: `kappa = 0.5`; `gamma_u = 1.2, maxiter = 50`; `gamma_d = 0.9, gamma_u = 2.0, maxiter = 50`) is a policy satisfying the
+    hypothesis `PolOK` of `C16_positive_finite_pgm/apgm/update`. -/
+theorem C16_defaults_admissible :
+    ∀ r ∈ policyClasses, ∃ pol : Policy (XR ℚ), policyOfDefaults r.1 r.2.2 = some pol ∧ PolOK pol ∧ pol.className = r.1 :=
+  defaults_ok.2.2
+
+end source
 
 /-! ### non-vacuity: concrete instances over `ℚ` -/
 
